@@ -32,7 +32,7 @@
    compared node) and proved to compute join_priv / provisional_priv / decap_priv / encap_priv of the model.
    Statements only. *)
 From Coq Require Import NArith List.
-From MlsV Require Import Res TreeMathGen TreeMathProofs Tree TreeProofs TreeWF Kem Priv PrivProofs Decap DecapProofs TreeWF5 PrivComplete PrivGen PrivGenProofs.
+From MlsV Require Import Res TreeMathGen TreeMathProofs Tree TreeProofs TreeWF Kem Priv PrivProofs Decap DecapProofs TreeWF5 PrivComplete PrivGen PrivGenProofs CommitStep.
 Import ListNotations.
 Local Open Scope N_scope.
 
@@ -145,6 +145,24 @@ Theorem C09_translated_encap_writes_are_the_model : forall pr path flt fk leafke
   gen_encap_writes pr path flt fk leafkey = encap_priv pr (length path) flt fk leafkey.
 Proof. exact gen_encap_writes_is_model. Qed.
 
+(* ---- the whole group, every reachable state ----
+   GInv g: the tree satisfies WF3, WF5 and the shape invariant, and EVERY member of g sits at an occupied
+   leaf, holds the key of that leaf, every key it holds is the key of the node it is stored for (PrivOK) and
+   it holds a key for every non-blank ancestor where it is not an unmerged leaf (Complete).  gstep: one commit
+   with an update path - proposals (removes, updates, adds), then the path - where every member of the new
+   epoch is a receiver (possibly with an own update in the commit), the committer or a member added by
+   the commit, and its private state is what provisional_private_tree + decap / encap / update_secrets
+   compute (the functions proved equal to the translated loops above). *)
+Theorem C09_one_commit_preserves_the_group_invariant : forall g g', GInv g -> gstep g g' -> GInv g'.
+Proof. exact ginv_step. Qed.
+
+Theorem C09_every_reachable_group_state_satisfies_the_invariant : forall g0 g, GInv g0 -> reachable g0 g -> GInv g.
+Proof. exact ginv_reachable. Qed.
+
+Theorem C09_the_group_a_member_creates_satisfies_the_invariant : forall id lk,
+  GInv {| g_tree := [Some (Leaf id)]; g_keys := (fun i => if i =? 0 then Some lk else None); g_members := [(0, [Some lk])] |}.
+Proof. exact ginv_initial. Qed.
+
 Print Assumptions C09_proposals_keep_privok.
 Print Assumptions C09_receiver_keeps_privok.
 Print Assumptions C09_committer_privok.
@@ -162,3 +180,6 @@ Print Assumptions C09_translated_update_secrets_is_the_model.
 Print Assumptions C09_translated_provisional_private_tree_is_the_model.
 Print Assumptions C09_translated_decap_writes_are_the_model.
 Print Assumptions C09_translated_encap_writes_are_the_model.
+Print Assumptions C09_one_commit_preserves_the_group_invariant.
+Print Assumptions C09_every_reachable_group_state_satisfies_the_invariant.
+Print Assumptions C09_the_group_a_member_creates_satisfies_the_invariant.
